@@ -448,3 +448,40 @@ func TestRegression_LimitCountsGroupsWithoutValuesInTheTimeRange(t *testing.T) {
 		}
 	}
 }
+
+// A storage node that fails (its task handler answers the request with an error response that is no not-found)
+// must fail the query: the root cannot answer from the other nodes, the answer would not be a function of the
+// written points. On the tree the harness was written against this only holds when the failure is handled after
+// the root has sent its whole plan: query.exec runs the pipeline (the task send stages) on the caller's goroutine
+// and then completes the task context with the pipeline's verdict - baseTaskContext.Complete(nil) overwrites the
+// error a response has set in the meantime. The task is already marked done, so WaitResponse returns at once:
+// without error, with whatever had been merged by then. A node that fails fast (its error response is back before
+// the root has sent the requests to the other nodes) is exactly that case.
+// Deterministic here through the harness-owned point at the end of the transport's SendRequest: both responses
+// are handed to the root inside its last SendRequest.
+const sigFailureForgotten = "C12/node-failure-handled-while-the-root-is-sending-is-forgotten"
+
+func TestRegression_NodeFailureWhileTheRootIsSendingIsForgotten(t *testing.T) {
+	e, ls := fixture(t, groupByData(t), []string{"root"}, &layoutSpec{Shards: 2, Nodes: [][]int{{0}, {1}}})
+	sql := "select s1 from cpu where " + fullRange()
+	ref := e.direct(t, ls[0].db, sql)
+	e.xc.Compute, e.xc.Order = nil, nil
+	e.xc.Sched = &sendSchedule{At: []int{1, 1}, Rank: []int{0, 1}}
+	e.xc.FailLeaf = map[string]string{leafName(1): "injected: the storage node failed"}
+	rs, err := e.xc.Query("root:1", ls[1].db, sql)
+	obs := e.xc.observed()
+	e.xc.Sched, e.xc.FailLeaf = nil, nil
+	what := fmt.Sprintf("two storage nodes, leaf1 fails, both responses reach the root inside its last SendRequest: %s\nerr=%v\nanswer: %sanswer of one node holding everything: %sresponses: %+v",
+		sql, err, node.Canon(rs), ref, obs)
+	switch {
+	case err != nil:
+		t.Logf("%s no longer reproduces: the query fails with %v", sigFailureForgotten, err)
+	case ev.Known(sigFailureForgotten):
+		ev.KnownFinding("C12", sigFailureForgotten+": "+strings.ReplaceAll(what, "\n", " | "))
+	default:
+		// Not listed in known_findings.json (yet): reported by the builder, proposed fix next to this file
+		// (proposed_fix_node_failure_forgotten.diff). The generated fault class hands the failure over after the root
+		// sent its plan, where the tree is correct, so this observation does not fail the check.
+		t.Logf("observation (%s, not listed): %s", sigFailureForgotten, what)
+	}
+}
